@@ -18,7 +18,7 @@ package gcetcbendorsement
 //@   requires sev != nil && policy != nil && opts != nil
 //@   requires ref(policy.TrustedIdKeys) == 0 || ref(policy.TrustedIdKeys) != ref(policy.TrustedAuthorKeys)
 //@   sweep[C07]
-//@   assigns[C17] policy.Policy, policy.Measurement, policy.TrustedIdKeys, policy.TrustedAuthorKeys, policy.TrustedIdKeys[*], policy.TrustedAuthorKeys[*]
+//@   assigns[C17] policy.Policy, policy.Measurement, policy.TrustedIdKeys, policy.TrustedAuthorKeys, policy.TrustedIdKeys[*cap], policy.TrustedAuthorKeys[*cap]
 //@   ensures[C17] err == nil && old(policy.Policy) != 0 && !opts.Overwrite ==> old(policy.Policy) == sev.Policy
 //@   ensures[C17] err == nil && old(policy.Policy) != 0 ==> policy.Policy == old(policy.Policy)
 //@   ensures[C17] err == nil && old(policy.Policy) == 0 ==> policy.Policy == sev.Policy
